@@ -11,7 +11,7 @@ pub fn drain_to_vec(s: &mut HashSet<UUID>) -> (r: Vec<UUID>)
 // TRUSTED helper (site rewrite in block_disconnected): `set.extend(vec)` — HashSet::extend has no vstd spec
 #[verifier::external_body]
 pub fn extend_set(s: &mut HashSet<UUID>, v: Vec<UUID>)
-    ensures forall|u: UUID| final(s)@.contains(u) <==> old(s)@.contains(u) || v@.contains(u),
+    ensures forall|u: UUID| #![trigger final(s)@.contains(u)] final(s)@.contains(u) <==> (old(s)@.contains(u) || v@.contains(u)),
 {
     s.extend(v)
 }
@@ -31,4 +31,11 @@ pub fn key_set(m: &HashMap<Txid, BlockHash>) -> (r: HashSet<Txid>)
     ensures r@ =~= m@.dom(),
 {
     m.keys().cloned().collect()
+}
+// TRUSTED helper (site rewrite in filtered_block_connected): `a.extend(b)` for vectors (Extend over a generic IntoIterator has no vstd spec)
+#[verifier::external_body]
+pub fn vec_extend(a: &mut Vec<UUID>, b: Vec<UUID>)
+    ensures final(a)@ == old(a)@ + b@,
+{
+    a.extend(b)
 }
